@@ -104,7 +104,11 @@ def _meta_from_array(x, ndim=None, dtype=None):
     return meta_from_array(x, ndim=ndim, dtype=dtype)
 
 
+CUR = [None]  # the engine (symbolic or concrete replay) of the running instance body, for user kernels that state obligations
+
+
 def W(E, key="catalog"):
+    CUR[0] = E
     cfg = Cfg({"array.rechunk.method": "tasks", "array.unify-chunks-policy": "auto", "array.unify-chunks-limit": None,
                "array.slicing.split-large-chunks": None})
     w = world(key, E.symbolic, MODS, nodes=True, desugar=(EX, CU, DB),
@@ -418,6 +422,67 @@ def p_diag(w, E, p, k=0):
     return Prog(out.expr, np.diag(p.ref, k), p.dsk)
 
 
+def _with_block_info(x, block_info=None):
+    """user function for map_blocks: adds the global start offset (along every axis) that block_info reports for the
+    block -- so a block fed from a layout other than the one the payload describes changes the values -- and obliges the
+    block it is given to have the extent the payload describes (input 0 and output)"""
+    if block_info is None:
+        return x
+    E = CUR[0]
+    loc = block_info[0]["array-location"]
+    out = block_info[None]
+    conds = [x.shape[k] == (hi - lo) for k, (lo, hi) in enumerate(loc)]
+    conds += [x.shape[k] == out["chunk-shape"][k] for k in range(len(out["chunk-shape"]))]
+    conds += [EQ(tuple(out["array-location"][k]), tuple(loc[k])) for k in range(len(loc))]
+    E.ensure("block-has-the-extent-block_info-describes", AND(*conds))
+    off = 0
+    for lo, _hi in loc:
+        off = off + lo
+    return x + off
+
+
+_with_block_info.__symx_kernel__ = True
+
+
+def _with_block_id(x, block_id=None):
+    if block_id is None:
+        return x
+    off = 0
+    for k, b in enumerate(block_id):
+        off = off + (k + 1) * b
+    return x + off
+
+
+_with_block_id.__symx_kernel__ = True
+
+
+def p_map_blocks(w, E, p, how="info"):
+    """map_blocks(f, x) with f reading block_info (or block_id); the reference is written from the layout advertised *now*"""
+    coll = w.fn(NC, "new_collection")(p.node)
+    chunks = tuple(tuple(c) for c in coll.chunks)
+    nd = len(chunks)
+    f = _with_block_info if how == "info" else _with_block_id
+    out = w.fn("dask_array._map_blocks", "map_blocks")(f, coll, dtype=np.dtype("f8"), meta=np.empty((0,) * nd))
+    X = p.ref
+    bounds = [cumsum0(c) for c in chunks]
+
+    def at(idx):
+        off = z3.IntVal(0)
+        for k in range(nd):
+            b = bounds[k]
+            term = None
+            for j in range(len(chunks[k]) - 1, -1, -1):
+                val = core._z(b[j]) if how == "info" else z3.IntVal((k + 1) * j)
+                term = val if term is None else z3.If(idx[k] < core._z(b[j + 1]), val, term)
+            off = off + term
+        return X._at(idx) + z3.ToReal(off)
+
+    ref = SArr(X.shape, at)
+    if getattr(X, "lemmas", None) is not None:
+        ref.lemmas = X.lemmas  # same index space
+    return Prog(out.expr, ref, p.dsk)
+
+
 def p_take(w, E, p, axis, index):
     """x[..., [i, j, ...], ...] through Array.__getitem__ (normalize_index -> slice_wrap_lists -> take -> Shuffle);
     the index values are concrete, the axis is long enough to hold them"""
@@ -524,6 +589,17 @@ def programs(tier):
     reg("diag(x2x2, same chunks on both axes)", lambda w, E: p_diag(w, E, _square(w, E, 2)), 3)
     reg("diag(x[3+5,5+3])", lambda w, E: p_diag(w, E, source(w, E, "x", (2, 2), chunks=[(3, 5), (5, 3)])), 2)
     reg("diag(x[2+2,1+3],k=1)", lambda w, E: p_diag(w, E, source(w, E, "x", (2, 2), chunks=[(2, 2), (1, 3)]), 1), 2)
+    # map_blocks with block_info / block_id, with rewrites above and below the call
+    reg("map_blocks(f_info,x3)", lambda w, E: p_map_blocks(w, E, source(w, E, "x", (3,))), 3)
+    reg("map_blocks(f_info,x2x2)", lambda w, E: p_map_blocks(w, E, source(w, E, "x", (2, 2))), 3)
+    reg("map_blocks(f_id,x2x2)", lambda w, E: p_map_blocks(w, E, source(w, E, "x", (2, 2)), "id"), 3)
+    reg("map_blocks(f_info,x2)[a:b]", lambda w, E: p_slice(w, p_map_blocks(w, E, source(w, E, "x", (2,))), raw_index(E, (F,))), 4)
+    reg("map_blocks(f_info,x2x2).T", lambda w, E: p_transpose(w, p_map_blocks(w, E, source(w, E, "x", (2, 2))), (1, 0)), 3)
+    reg("map_blocks(f_info,rechunk(x2->3))", lambda w, E: p_map_blocks(w, E, _rechunk_prog(w, E, (2,), (3,))), 4)
+    reg("rechunk(map_blocks(f_info,x2)->3)", lambda w, E: _rechunk_over(w, E, p_map_blocks(w, E, source(w, E, "x", (2,))), (3,)), 4)
+    reg("map_blocks(f_info,x2+y3(unaligned))", lambda w, E: p_map_blocks(w, E, _add_unaligned(w, E, (2,), (3,))), 6)
+    reg("map_blocks(f_info,x3[a:b])", lambda w, E: p_map_blocks(w, E, p_slice(w, source(w, E, "x", (3,)), raw_index(E, (F,)))), 5)
+    reg("map_blocks(f_info,sliding_window_view(x3,W,0).sum(-1))", lambda w, E: p_map_blocks(w, E, p_sliding_sum(w, E, source(w, E, "x", (3,)), 0)), 14)
     # point-wise indexing with two integer arrays (entries enumerated by forking; sizes of the other axes symbolic)
     reg("x(2,1)x2.vindex[[p,q],:]... two arrays: x.vindex[[p0,p1],:,[q0,2]]", lambda w, E: _vindex_prog(w, E, ((2, 1), "s", (1, 2)), 2, {(2, 1): 2}), 9)
     reg("x.vindex[:,[p0,1],:,[q0,q1]] (4-d, separated axes)", lambda w, E: _vindex_prog(w, E, ("s", (1, 1), "s", (2,)), 2, {(1, 1): 1}), 9)
